@@ -8,3 +8,5 @@ import Rp2.Props.C07
 #print axioms Rp2.C07.model_balances_reconcile_with_lots
 #print axioms Rp2.C07.model_sum_of_final_balances
 #print axioms Rp2.C07.model_balances_reconcile_with_lots_to_date
+#print axioms Rp2.C07.source_balance_loop_is_model
+#print axioms Rp2.C07.source_replay_order_and_cut
